@@ -28,7 +28,7 @@ def make_plan(pid, tier, seed, ctx, configs, meta):
     builds = sorted(set(c[0] for c in configs))
     units = UNITS + ['c10_build_' + b for b in builds]
     head = core.decls(units + ['c10_empty_and_single']) + 'void c10_prologue(uint32_t, uint32_t, uint32_t);\n' + \
-        'void c10_epilogue_any(uint32_t); void c10_epilogue_all(uint32_t); void c10_epilogue_join(uint32_t);\nvoid c09_tuple_first(uint32_t, uint32_t, uint32_t); void c09_tuple_none(uint32_t, uint32_t, uint32_t);\n' + core.unit_selector(units)
+        'void c10_epilogue_any(uint32_t); void c10_epilogue_all(uint32_t); void c10_epilogue_join(uint32_t);\nvoid c09_tuple_first(uint32_t, uint32_t, uint32_t); void c09_tuple_none(uint32_t, uint32_t, uint32_t);\nvoid c10_any3_none(uint32_t, uint32_t, uint32_t, uint32_t); void c10_any3_first(uint32_t, uint32_t, uint32_t, uint32_t); void c10_any3_last(uint32_t, uint32_t, uint32_t, uint32_t);\n' + core.unit_selector(units)
     queries = []
     first = [True]
 
@@ -36,6 +36,13 @@ def make_plan(pid, tier, seed, ctx, configs, meta):
         queries.append({'name': name, 'module': 'when', 'main': (head if first[0] else '') + text, 'unwind': 8, 'timeout': timeout, 'sample': what})
         first[0] = False
     add('c10_empty_and_single_q', 'void c10_empty_and_single_q(void) { vp_init(); c10_empty_and_single(); }\n', 'empty input range -> invalid future; WhenAny of one future')
+    if pid == 'C10':
+        pats = [(0, 1, 0), (1, 0, 1), (0, 0, 1), (1, 1, 0), (1, 2, 1), (2, 0, 0), (0, 2, 0), (1, 1, 1)] if tier == 'quick' else list(itertools.product(range(3), repeat=3))
+        for pol in ('none', 'first', 'last'):
+            for (a, b, c), o in itertools.product(pats, range(6)):
+                nm = 'c10_any3_%s_%s%s%s_o%d' % (pol, 'vex'[a], 'vex'[b], 'vex'[c], o)
+                add(nm, 'void %s(void) { vp_init(); c10_any3_%s(%d, %d, %d, %d); }\n' % (nm, pol, a, b, c, o),
+                    'WhenAny<%s> static, 3 inputs (%s, %s, %s), sequential completion order #%d' % (pol, KIND[a], KIND[b], KIND[c], o))
     if pid == 'C09':
         for pol in ('first', 'none'):
             for k0, k1, order in itertools.product(range(3), range(3), range(3)):
